@@ -1,8 +1,8 @@
 """JavaScript lexer (tokenizer)."""
 
-from typing import Iterator, Optional
+from typing import Callable, Iterator, Optional
 from .tokens import Token, TokenType, KEYWORDS
-from .errors import JSSyntaxError
+from .errors import JSSyntaxError, TimeLimitError
 from .values import js_number
 
 
@@ -15,12 +15,17 @@ def _is_digit(ch: str) -> bool:
 class Lexer:
     """Tokenizes JavaScript source code."""
 
-    def __init__(self, source: str):
+    def __init__(self, source: str, poll: Optional[Callable[[], bool]] = None):
         self.source = source
         self.pos = 0
         self.line = 1
         self.column = 1
         self.length = len(source)
+        # Asked every 128 tokens whether the evaluation has run out of time:
+        # parsing is part of the evaluation, and looking ahead for an arrow
+        # function reads the tokens of nested parentheses again and again
+        self._poll = poll
+        self._tokens_read = 0
 
     def _current(self) -> str:
         """Get current character or empty string if at end."""
@@ -240,6 +245,10 @@ class Lexer:
 
     def next_token(self) -> Token:
         """Get the next token."""
+        self._tokens_read += 1
+        if self._poll is not None and self._tokens_read % 128 == 0:
+            if self._poll():
+                raise TimeLimitError("Execution timeout")
         self._skip_whitespace()
 
         line = self.line
